@@ -202,6 +202,12 @@ def run_variant(unit, variant, gen_c, workdir, prelude, solver='kissat', extra_d
         cmd += ['--no-malloc-may-fail'] if '--malloc-may-fail' not in cmd else []
     cmds.append(' '.join(cmd))
     outp = os.path.join(workdir, name + '.json')
+    if variant.get('split', meta.get('split')):
+        # one solver query per contract obligation, one per class for the rest (same program, same flags):
+        # SMT back ends decide each float obligation in seconds but not their disjunction
+        obs, msgs, secs = run_split(cmd, b, name, workdir, timeout, mem, {os.path.basename(gen_c)})
+        cmds[-1] += '   # split: one query per contract obligation (--property <name>), one per class otherwise'
+        return finish_variant(obs, msgs, cmd, name, workdir, timeout, mem, {os.path.basename(gen_c)}, meta, secs, t0, cmds, solver, None)
     rc, err, secs = sh(cmd, timeout, mem, workdir, stdout_path=outp)
     if rc not in (0, 10) and not meta.get('object_bits'):
         try:
@@ -223,6 +229,70 @@ def run_variant(unit, variant, gen_c, workdir, prelude, solver='kissat', extra_d
         raise Undecided('tool-error', 'cbmc rc=%s\n%s\n%s' % (rc, err[-1500:], tail))
     names = {os.path.basename(gen_c)}
     obs, msgs = parse_results(outp, names)
+    return finish_variant(obs, msgs, cmd, name, workdir, timeout, mem, names, meta, secs, t0, cmds, solver, outp)
+
+
+SPLIT_SINGLE = re.compile(r'\.(postcondition|precondition|loop_invariant_base|loop_invariant_step|assertion)\.\d+$')
+
+
+def run_split(cmd, b, name, workdir, timeout, mem, names):
+    import concurrent.futures as cf
+    t0 = time.time()
+    lp = os.path.join(workdir, name + '.props.json')
+    rc, err, _ = sh(['cbmc', b, '--show-properties', '--json-ui'], 120, mem, workdir, stdout_path=lp)
+    try:
+        props = [p['name'] for e in json.load(open(lp)) if 'properties' in e for p in e['properties']]
+    except Exception as ex:
+        raise Undecided('tool-error', 'cannot list properties: %s' % ex)
+    if not props:
+        raise Undecided('tool-error', 'no properties listed')
+    groups = {}
+    for pn in props:
+        key = pn if SPLIT_SINGLE.search(pn) else re.sub(r'\.\d+$', '', pn)
+        groups.setdefault(key, []).append(pn)
+    deadline = t0 + timeout
+
+    def one(item):
+        k, (key, pl) = item
+        left = deadline - time.time()
+        if left <= 1:
+            raise Undecided('timeout', 'cbmc (split) after %ds' % timeout)
+        op = os.path.join(workdir, '%s.split%d.json' % (name, k))
+        c = list(cmd)
+        for pn in pl:
+            c += ['--property', pn]
+        try:
+            rc, err, _ = sh(c, min(left, max(60, timeout / 4)), mem, workdir, stdout_path=op)
+        except Undecided as u:
+            # an SMT back end that proves the valid obligations fast can be slow at FINDING a counterexample of an
+            # invalid float obligation; the propositional back end is the opposite.  Same formula, other decision procedure.
+            if u.reason != 'timeout' or not any(x in c for x in ('--cvc5', '--z3')):
+                raise
+            left = deadline - time.time()
+            if left <= 1:
+                raise
+            c = [x for x in c if x not in ('--cvc5', '--z3')]
+            rc, err, _ = sh(c, left, mem, workdir, stdout_path=op)
+        if rc not in (0, 10):
+            raise Undecided('tool-error', 'cbmc rc=%s on group %s\n%s' % (rc, key, err[-1000:]))
+        o, m = parse_results(op, names)
+        os.remove(op)
+        want = set(pl)
+        base = [x for x in c if x != '--property' and x not in want]
+        o = [x for x in o if x['name'] in want]
+        for x in o:
+            x['cmd'] = base
+        return o, m
+
+    obs, msgs = [], []
+    with cf.ThreadPoolExecutor(max_workers=8) as ex:
+        for o, m in ex.map(one, enumerate(sorted(groups.items()))):
+            obs += o
+            msgs += m
+    return obs, msgs, time.time() - t0
+
+
+def finish_variant(obs, msgs, cmd, name, workdir, timeout, mem, names, meta, secs, t0, cmds, solver, outp):
     for m in msgs:
         if 'ignoring' in m.lower() and ('forall' in m.lower() or 'exists' in m.lower() or 'quantifier' in m.lower()):
             raise Undecided('tool-error', 'quantifier ignored by back end: ' + m)
@@ -230,9 +300,9 @@ def run_variant(unit, variant, gen_c, workdir, prelude, solver='kissat', extra_d
     failed = [o for o in obs if o['status'] == 'FAILURE' and o['class'] != 'reach' and o['own']]
     for o in failed[:int(meta.get('max_traces', 4))]:
         tp = os.path.join(workdir, name + '.trace.%s.json' % re.sub(r'\W', '_', o['name']))
-        tcmd = cmd + ['--trace', '--property', o['name']]
+        tcmd = o.get('cmd', cmd) + ['--trace', '--property', o['name']]
         try:
-            sh(tcmd, timeout, mem, workdir, stdout_path=tp)
+            sh(tcmd, min(timeout, 300), mem, workdir, stdout_path=tp)
             tobs, _ = parse_results(tp, names)
             for x in tobs:
                 if x['name'] == o['name'] and 'trace' in x:
@@ -240,7 +310,8 @@ def run_variant(unit, variant, gen_c, workdir, prelude, solver='kissat', extra_d
         except Undecided:
             pass
     try:
-        os.remove(outp)
+        if outp:
+            os.remove(outp)
     except OSError:
         pass
     return {'obligations': obs, 'seconds': secs, 'total_seconds': time.time() - t0, 'cmds': cmds, 'solver': solver}
